@@ -7,16 +7,20 @@
    DSP thread.  MC_ApbpConc*.cfg: invariants ValuesOK (received values were sent, in send order), LocksetOK
    (locking discipline), NoDeadlock, HeldOK, OwedSafe, action property TrigDelivers;  MC_ApbpConc_live*.cfg:
    FairSpec (weak fairness of both threads, no state constraint) with LastSeen, HandlerOwed, LatchConsumed,
-   IrqTaken.
-2. TLC, pinned models: MC_ApbpConc_pinned.cfg (DataChannel::SetDisableInterrupt without the mutex, D7) and
-   MC_ApbpConc_pinned_vec.cfg (ICU vector registers) must violate LocksetOK; MC_ApbpConc_mut_inside.cfg (seeded
+   IrqTaken.  MC_ApbpConc_mask*.cfg: the path opened by fix bf7856c -- MaskSemaphore calls the semaphore handler
+   on the CALLING thread with the recursive mutex held (host callback on the host thread re-entering
+   RecvData/GetSemaphore/ClearSemaphore; ICU trigger on the DSP thread for MMIO 0x0CE).
+2. TLC, pinned models: MC_ApbpConc_pinned.cfg (DataChannel::SetDisableInterrupt without the mutex: D7 as first
+   pinned, repaired by 2b7c59d) and MC_ApbpConc_pinned_vec.cfg (ICU vector registers, known finding) must violate
+   LocksetOK; MC_ApbpConc_mut_inside.cfg (seeded
    mutation: handler called inside the lock) must violate NoDeadlock -- keeps the model honest.
 3. Conformance, impl -> spec: conc_rec built with -fsanitize=thread runs a real Teakra with a DSP thread
    (guest program + DSP-side MMIO accesses) and a host thread, per-thread event sequences only; TLC
    (ApbpConcTrace.tla, depth-first) searches for an interleaving of the two sequences that the same
    micro-operations explain.  ThreadSanitizer reports arrive as Race events, the watchdog's as Stuck; neither
    has an explanation.  Three modes: base (no DSP-side writes of 0x0D4 / vector registers: must be clean),
-   dis (DSP thread writes the disable-interrupt bits while the host sends: D7), vec (DSP thread writes the
+   dis (DSP thread writes the disable-interrupt bits while the host sends: clean since fix 2b7c59d, a report
+   there is a violation again), vec (DSP thread writes the
    vector registers of irq 14 while the host triggers it with vectored delivery on).
 """
 import concurrent.futures as cf
@@ -56,16 +60,18 @@ def run(ck):
     th = ck.thorough
     jobs = [
         # (cfg, workers, must_hold, expected violation, timeout)
-        ('MC_ApbpConc.cfg', 6, True, None, 3000),
-        ('MC_ApbpConc_cb.cfg', 4, True, None, 3000),
-        (ck.pick('MC_ApbpConc_live.cfg', 'MC_ApbpConc_live_thorough.cfg'), 3, True, None, 3000),
+        ('MC_ApbpConc.cfg', 4, True, None, 3000),
+        ('MC_ApbpConc_cb.cfg', 3, True, None, 3000),
+        ('MC_ApbpConc_mask.cfg', 4, True, None, 3000),
+        (ck.pick('MC_ApbpConc_live.cfg', 'MC_ApbpConc_live_thorough.cfg'), 2, True, None, 3000),
+        (ck.pick('MC_ApbpConc_mask_live_q.cfg', 'MC_ApbpConc_mask_live.cfg'), 3, True, None, 3000),
         ('MC_ApbpConc_vec.cfg', 2, True, None, 900),
         ('MC_ApbpConc_pinned.cfg', 1, False, 'LocksetOK', 600),
         ('MC_ApbpConc_pinned_vec.cfg', 1, False, 'LocksetOK', 600),
         ('MC_ApbpConc_mut_inside.cfg', 1, False, 'NoDeadlock', 600),
     ]
     if th:
-        jobs = [('MC_ApbpConc_thorough.cfg', 8, True, None, 6000), ('MC_ApbpConc_mid.cfg', 4, True, None, 3000)] + jobs
+        jobs = [('MC_ApbpConc_thorough.cfg', 6, True, None, 6000), ('MC_ApbpConc_mid.cfg', 4, True, None, 3000)] + jobs
 
     def one(j):
         cfg, workers, must_hold, _, timeout = j
@@ -164,6 +170,8 @@ def triage(ck, files):
                                  'ThreadSanitizer: %s on %s (%s vs %s) in run %s of %s [mode %s]; full report in '
                                  '%s.tsan.txt' % (x.get('kind'), x.get('var'), x.get('mop0'), x.get('mop1'),
                                                   r.get('run'), os.path.basename(f), json.dumps(r.get('cfg')), kept))
+                elif x.get('e') == 'RaceFlood' and any(y.get('e') == 'Race' for y in r['x']):
+                    continue   # only says that more reports were made than Race events written out
                 else:
                     sig = 'stuck' if x.get('e') == 'Stuck' else 'x:%s' % x.get('e')
                     seen[sig] = seen.get(sig, 0) + 1
